@@ -31,7 +31,9 @@ ASSUMPTIONS = ["decimal text of <= 15 significant digits is one correctly rounde
                "crop files: ASCII white space only; the initial-weight line has no multi-byte character before column 70",
                "weather layouts are compared on the content all three can express: no ET0 / sunshine / vapour columns, "
                "no station / wind height line, mean temperature = binary64 (tmin+tmax)/2, no CO2 column",
-               "date-valued output columns are blanked when runs in different date formats are compared"]
+               "date-valued output columns (and the dates printed in the fertiliser-prediction file) are blanked when runs in different date formats are compared",
+               "C13_crop_yaml_agree excludes stale RGA / RGB / SubOrgan (the classic reader keeps the previous crop's values unless the N-content function is 5, "
+               "the YAML reader resets them); the oracle 'stale-field-read' checks on the real code that results do not depend on them then"]
 LEVEL_TEXT = ("Machine-checked proof (Coq) of loader agreement for the date formats (from C12), for the crop "
               "parameter readers (classic fixed-column reader = YAML reader o shipped converter, for every "
               "well-formed classic file, any prior state, with the differences of the readers as explicit "
@@ -169,7 +171,7 @@ def correspond(ctx):
     conv = ctx.repo_bin("src/cropfileconverter", "cropfileconverter")
     wd = os.path.join(ctx.work, "variants")
     os.makedirs(wd, exist_ok=True)
-    jobs, plan = [], []
+    jobs, plan, differ_jobs = [], [], []
 
     def job(kind, file, prior=0, cont=False, mode=0):
         jobs.append({"id": len(jobs), "kind": kind, "file": file, "prior": prior, "cont": cont, "mode": mode, "cropfile": "", "args": None})
@@ -180,10 +182,13 @@ def correspond(ctx):
         data = open(p, "rb").read()
         for prior, cont in ((0, False), (1, False), (1, True)):
             plan.append(("classic", fn, data, prior, cont, job("classic", p, prior, cont), None))
+            if (prior, cont) == (1, False):
+                cj = plan[-1][5]
         plan.append(("convert", fn, data, 0, False, job("convert", p), None))
         rid = job("record", p + ".yml")
         for prior, cont in ((0, False), (1, True)):
             plan.append(("yaml", fn + ".yml", None, prior, cont, job("yaml", p + ".yml", prior, cont), rid))
+        differ_jobs.append((fn, cj, job("yaml", p + ".yml", 1, False)))      # classic (junk prior) vs YAML (junk prior)
         # rotation position 2 after the same crop / position 3 after another crop: the stand does NOT continue
         for mode in (2, 3):
             plan.append(("classic", fn + " rotation-mode %d" % mode, data, 1, False, job("classic", p, 1, False, mode), None))
@@ -203,6 +208,21 @@ def correspond(ctx):
         else:
             conv_failed += 1
     res = CC.run_jobs(ctx, jobs)
+    # which state fields do the two readers leave different after reading the same crop over the same (junk) prior state?
+    differ = {}
+    for fn, jc, jy in differ_jobs:
+        oc, oy = res.get(jc, {}), res.get(jy, {})
+        if "f" in oc and "f" in oy:
+            names = [CC.field_name(i) for i, (x, y) in enumerate(zip(oc["f"], oy["f"])) if x != y] + \
+                    [CC.field_name(10000 + i) for i, (x, y) in enumerate(zip(oc["z"], oy["z"])) if x != y]
+            for nme in names:
+                differ.setdefault(nme, []).append(fn)
+            extra = [nme for nme in names if nme not in ("RGA", "RGB", "SubOrgan")]
+            if extra:
+                c.mismatches.append({"kind": "reader-difference", "file": fn, "what": "classic and YAML reader leave other fields than RGA/RGB/SubOrgan "
+                                     "different over the same prior state", "fields": extra})
+    ctx.extra["fields_the_classic_and_yaml_reader_leave_different"] = {k_: "%d of %d shipped files (the classic reader keeps the previous crop's value "
+                                                                          "unless the N-content function is 5)" % (len(v), len(differ_jobs)) for k_, v in differ.items()}
     cs = CC.CaseSet(per_shard=40 if not ctx.thorough else 80)
     seen = set()
     for kind, name, data, prior, cont, jid, rid in plan:
@@ -226,11 +246,14 @@ def correspond(ctx):
     soil_correspond(ctx, c)
     rota_correspond(ctx, c)
     meas_correspond(ctx, c)
+    predyear_correspond(ctx, c)
     c.nontrivial = len(seen)
     c.dist["generated_variants_rejected_by_converter"] = conv_failed
     c.samples = ["%s %s" % (p[0], p[1]) for p in plan[:4] + plan[-3:]]
     c.notes.append("compared per case: every field of the crop state (369 floats, 25+ integers) or of the converted record, bit for bit")
     c.notes.append("NOT modelled (paired runs only): weather readers")
+    c.notes.append("fields the classic and the YAML crop reader leave different over the same prior state: see fields_the_classic_and_yaml_reader_leave_different "
+                   "(any field outside RGA / RGB / SubOrgan is a mismatch)")
     return c
 
 
@@ -567,6 +590,40 @@ def meas_correspond(ctx, c):
 
 
 # ------------------------------------------------------------------------------------------------
+# year of the fertiliser-prediction date: PredDateModel.langtag_year vs the real LangTagConverter
+
+def predyear_correspond(ctx, c):
+    import json
+    rnd = random.Random(ctx.seed * 47 + 31)
+    cases = []
+    for k in range(400 if ctx.thorough else 80):
+        fi = k % 4
+        cent = [50, 60, 0, 100, 30][k % 5]
+        lo, hi = (1900 + cent, 1999 + cent) if fi in (0, 2) else (1901, 2099)
+        y = rnd.randrange(max(lo, 1901), min(hi, 2099) + 1)
+        d = datetime.date(y, 1 + rnd.randrange(12), 1 + rnd.randrange(28))
+        cases.append((fi, cent, F.fmt_date(d, F.DATEFMTS[fi], rnd.choice(["", "", "."])), y - 1900))
+    jf = os.path.join(ctx.work, "predyear.txt")
+    open(jf, "w").write("".join("%d %d %s\n" % t[:3] for t in cases))
+    q = subprocess.run([ctx.harness(), "predyear", "-jobs", jf], stdout=subprocess.PIPE, stderr=subprocess.PIPE, text=True, timeout=300)
+    obs = {json.loads(x)["k"]: json.loads(x)["year"] for x in q.stdout.split("\n") if x.startswith("{")}
+    if q.returncode != 0 or len(obs) != len(cases):
+        c.mismatches.append({"kind": "prediction-year", "what": "LangTagConverter ended in a Fatal on a date of the format's range", "stderr": q.stderr[-300:]})
+        return c
+    cs = CC.CaseSet(per_shard=10 ** 6)
+    for k, (fi, cent, text, yr) in enumerate(cases):
+        if obs[k] != yr:       # the property on the real code: the civil year
+            c.mismatches.append({"kind": "prediction-year", "case": "%s %s split %d" % (F.DATEFMTS[fi], text, cent),
+                                 "differs": ["LangTagConverter takes year %s, the date is in %d" % (obs[k] + 1900 if obs[k] >= 0 else "?", yr + 1900)]})
+        cs.add(lambda file, t=(fi, cent, text, obs[k]): '((%d)%%Z, (%d)%%Z, "%s", (%d)%%Z)' % t, "prediction date %s %s split %d" % (F.DATEFMTS[fi], text, cent))
+    CC.evaluate(ctx, c, cs, "Cases_C13pred", fn="pmismatches", casetype="(Z * Z * string * Z)",
+                extra_import="From Hermes Require Import SoilModel RotaReaderModel MeasModel C13SoilCorr C13RotaCorr C13MeasCorr.",
+                kind="prediction-year", namer=lambda p_: "model year %d" % p_)
+    c.bump("prediction-dates", len(cases))
+    return c
+
+
+# ------------------------------------------------------------------------------------------------
 # oracle: paired whole runs
 
 def _crop_clause(ctx, env, rnd, fails, search):
@@ -594,6 +651,8 @@ def _crop_clause(ctx, env, rnd, fails, search):
         if q.returncode == 0:
             var_dirs.append((name, fn, d))
     lines, groups = [], []
+    stale_lines = _cache.setdefault("stale_lines", [])
+    del stale_lines[:]
     pk = 0
     for fn, abbr, var in files:
         name = "cp%d" % pk; pk += 1
@@ -604,6 +663,27 @@ def _crop_clause(ctx, env, rnd, fails, search):
                   F.line_for(name, P, extra="CropParameterFormat=yml parameter=./parameter_conv")]
         groups.append(("crop-yaml:" + fn, i0, i0 + 1, "classic crop file vs shipped YAML"))
         groups.append(("crop-converter:" + fn, i0, i0 + 2, "classic crop file vs YAML written by the shipped converter"))
+        if pk % 5 == 1 or abbr == "ZR":
+            stale_lines.append(lines[i0])
+    # rotations in which a crop of N-content function 5 with a storage organ (sugar beet, org=S4) is FOLLOWED by crops of other
+    # N functions: the classic reader leaves the beet's RGA / RGB / SubOrgan in place, the YAML reader resets them
+    for b_ in range(4 if ctx.thorough or search else 2):
+        seq = [("WW", ""), ("ZR", "chrnew" if b_ % 2 else ""), rnd.choice([("WW", ""), ("WG", "")]), ("SM", ""), rnd.choice([("K", ""), ("SW", "")]), ("SOY", "000")]
+        name = "cb%d" % b_
+        P = F.base_project(rnd, crops=tuple(seq), years=(1980, 1986))
+        F.write_project(env, name, P)
+        i0 = len(lines)
+        lines += [F.line_for(name, P), F.line_for(name, P, extra="CropParameterFormat=yml"),
+                  F.line_for(name, P, extra="CropParameterFormat=yml parameter=./parameter_conv")]
+        groups.append(("crop-yaml-rotation:beet%d" % b_, i0, i0 + 1, "rotation with a sugar beet followed by other crops: classic vs shipped YAML"))
+        groups.append(("crop-converter-rotation:beet%d" % b_, i0, i0 + 2, "rotation with a sugar beet followed by other crops: classic vs converter-made YAML"))
+        stale_lines.append(lines[i0])
+    rue = "project=rue WeatherFolder=historical fcode=109_120 plotNr=10001 soilId=001 Altitude=73 Latitude=52.6732 poligonID=29872"
+    i0 = len(lines)
+    lines += [rue, rue + " CropParameterFormat=yml", rue + " CropParameterFormat=yml parameter=./parameter_conv"]
+    groups.append(("crop-yaml-rotation:shipped-rue", i0, i0 + 1, "shipped project rue (sugar beet in the rotation): classic vs shipped YAML"))
+    groups.append(("crop-converter-rotation:shipped-rue", i0, i0 + 2, "shipped project rue: classic vs converter-made YAML"))
+    stale_lines.append(rue)
     allf = {f[0]: f for f in F.classic_files(par)}
     for vname, fn, d in var_dirs:
         _, abbr, var = allf[fn]
@@ -619,6 +699,7 @@ def _crop_clause(ctx, env, rnd, fails, search):
 def _encodings_clause(ctx, env, rnd, search):
     """one abstract project in every encoding of rotation / soil / measurements / dates"""
     lines, groups = [], []
+    datefree = set()
     n = 40 if ctx.thorough or search else 6
     for k in range(n):
         allc = [(("SM", ""), ("SOY", "000")), (("WW", ""), ("SM", "")), (("ZR", "chrnew"), ("SW", "")), (("K", ""), ("WG", "")), (("SOY", "ii"), ("OA", ""))]
@@ -654,7 +735,23 @@ def _encodings_clause(ctx, env, rnd, search):
             groups.append(("date-format:%s:p%d" % (f, k), d0, add(f, None, None, datefmt=f, drop_dates=True), "dates written as %s vs DateDElong" % f))
         groups.append(("date-format:separator:p%d" % k, d0, add("dsep", None, None, datefmt="DateDElong", sep=".", drop_dates=True),
                        "dates written dd.mm.yyyy vs ddmmyyyy"))
-    return lines, groups
+        if k % 3 == 0 or ctx.thorough:
+            # fertiliser-demand prediction: the prediction date is written in the project's format too (19xx and 20xx, split at 50)
+            for cy, (ya, yb) in (("19xx", (1980, 1983)), ("20xx", (1998, 2003))):
+                Q = F.base_project(rnd, crops=crops, years=(ya, yb))
+                Q.soil, Q.cfg = P.soil, dict(P.cfg)
+                pd = datetime.date(ya + 2, 4, 5 + rnd.randrange(20))
+                qi = {}
+                for f in F.DATEFMTS:
+                    nm = "%s_p%s%s" % (base, cy[:2], f[4:])
+                    F.write_project(env, nm, Q, datefmt=f, drop_dates=True,
+                                    cfg={"DivideCentury": 50, "VirtualDateFertilizerPrediction": "'%s'" % F.fmt_date(pd, f)})
+                    lines.append(F.line_for(nm, Q)); qi[f] = len(lines) - 1
+                    datefree.add(len(lines) - 1)
+                for f in ("DateDEshort", "DateENshort", "DateENlong"):
+                    groups.append(("date-format:prediction-%s:%s:p%d" % (cy, f, k), qi["DateDElong"], qi[f],
+                                   "fertiliser prediction on %s, dates written as %s vs DateDElong" % (pd.isoformat(), f)))
+    return lines, groups, datefree
 
 
 def _weather_clause(ctx, env, rnd, search):
@@ -742,6 +839,45 @@ def input_states(ctx, env, lines):
     return out
 
 
+def stale_field_test(ctx, env, fails):
+    """'does not read what the reader did not set': classic-format runs with RGA / RGB / SubOrgan overwritten every day while the
+    current crop's N function is not 5 (harness stalerun) must give the results of the undisturbed runs"""
+    import json
+    ls = list(dict.fromkeys(_cache.get("stale_lines", [])))
+    if not ls:
+        return
+    vh = ctx.harness()
+    dig = {}
+    info = {}
+    for tag, flag in (("STA", []), ("STB", ["-perturb"])):
+        lf = os.path.join(ctx.work, "stale_%s.txt" % tag)
+        with open(lf, "w") as f:
+            for i, l in enumerate(ls):
+                f.write("%s resultfolder=%s/l%d\n" % (l, tag, i))
+        q = subprocess.run([vh, "stalerun", "-work", env.ex, "-lines", lf] + flag, stdout=subprocess.PIPE, stderr=subprocess.PIPE,
+                           text=True, timeout=1800, cwd=env.ex)
+        info[tag] = {json.loads(x)["line"]: json.loads(x) for x in q.stdout.split("\n") if x.startswith("{")}
+        for i in range(len(ls)):
+            dig[(tag, i)] = F._digest(os.path.join(env.ex, tag, "l%d" % i))
+        shutil.rmtree(os.path.join(env.ex, tag), ignore_errors=True)
+    days = 0
+    for i, l in enumerate(ls):
+        a, b_ = dig[("STA", i)], dig[("STB", i)]
+        days += info["STB"].get(i, {}).get("perturbed_days", 0)
+        if not a or not b_:
+            fails.append(Fail(key="stale-field-run-failed:%s" % l.split()[0], what="the classic-format run fails in-process: %s" %
+                              (info["STA"].get(i) or info["STB"].get(i)), line=l))
+        elif a != b_:
+            d = sorted(k for k in set(a) | set(b_) if a.get(k) != b_.get(k))
+            fails.append(Fail(key="stale-field-read:%s" % l.split()[0],
+                              what="the results depend on RGA / RGB / SubOrgan while the current crop's N-content function is not 5 — fields the "
+                                   "classic crop reader leaves at the previous crop's values and the YAML reader resets (result files %s differ)" % ",".join(d),
+                              replay={"cwd": "scratch copy of /repo/examples with the generated project", "line": l,
+                                      "how": "vh stalerun -perturb: every day with NGEFKT != 5 set RGA=7.25, RGB=-3.5, SubOrgan=2"}))
+    ctx.extra["stale_field_runs"] = len(ls)
+    ctx.extra["stale_field_days_overwritten"] = days
+
+
 def oracle(ctx, search):
     env = F.setup(ctx)
     try:
@@ -754,11 +890,15 @@ def _oracle(ctx, search, env):
     rnd = random.Random(ctx.seed * 29 + 17)
     fails = []
     lines, groups = [], []
+    env.datefree = set()
     for part in (_crop_clause(ctx, env, rnd, fails, search), _encodings_clause(ctx, env, rnd, search),
                  _weather_clause(ctx, env, rnd, search), _shipped_pairs(env)):
         off = len(lines)
         lines += part[0]
         groups += [(k, a + off, b_ + off, w) for k, a, b_, w in part[1]]
+        if len(part) > 2:
+            env.datefree |= {x + off for x in part[2]}
+    stale_field_test(ctx, env, fails)
     runs = F.run_lines(env, "C13", lines, timeout=2400)
     # what the real Input left in the rotation arrays and the drain parameters, for the pairs of encodings
     want = sorted({x for key, a, b_, w in groups if key.startswith(("rotation-", "soil-", "all-csv", "measurement-", "date-format")) for x in (a, b_)})
